@@ -131,6 +131,8 @@ func rawState(l *sqlLexer) stateFn {
 			return singleQuoteState
 		case '"':
 			return doubleQuoteState
+		case '`':
+			return backtickState
 		case '$':
 			nextRune, _ := utf8.DecodeRuneInString(l.src[l.pos:])
 			if '0' <= nextRune && nextRune <= '9' {
@@ -214,6 +216,32 @@ func doubleQuoteState(l *sqlLexer) stateFn {
 
 // placeholderState consumes a placeholder value. The $ must have already has
 // already been consumed. The first rune must be a digit.
+// backtickState skips a back-tick quoted identifier (the identifier quoting of
+// the dialect this library parses); a $n inside it is not a placeholder
+func backtickState(l *sqlLexer) stateFn {
+	for {
+		r, width := utf8.DecodeRuneInString(l.src[l.pos:])
+		l.pos += width
+
+		switch r {
+		case '`':
+			nextRune, width := utf8.DecodeRuneInString(l.src[l.pos:])
+			if nextRune != '`' {
+				return rawState
+			}
+			l.pos += width
+		case utf8.RuneError:
+			if width != replacementcharacterwidth {
+				if l.pos-l.start > 0 {
+					l.parts = append(l.parts, l.src[l.start:l.pos])
+					l.start = l.pos
+				}
+				return nil
+			}
+		}
+	}
+}
+
 func placeholderState(l *sqlLexer) stateFn {
 	num := 0
 
